@@ -82,6 +82,10 @@ func runC04(c *vkit.Ctx, i int, h *History, om onMode) {
 	r := c.Rand("run", i)
 	s := NewSess("c04")
 	defer s.Close()
+	s.ShareConfigs = i%2 == 0
+	if s.ShareConfigs {
+		c.Count("histories_through_shared_config_objects", 1)
+	}
 	s.seedPre(h)
 	ok := true
 	s.RunProcess(r, h, vkit.Mode{}, true, nil, func(o Op, res StepResult) bool {
@@ -96,6 +100,7 @@ func runC04(c *vkit.Ctx, i int, h *History, om onMode) {
 		c.Count("premise_record_failed", 1)
 		return
 	}
+	s.appendPost(h)
 	// headers per file for header-like replacement bodies
 	headers := map[string][]string{}
 	for _, t := range h.Tests {
